@@ -1,4 +1,5 @@
 import RpmVerif.Model.Basic
+import RpmVerif.Model.Calendar
 /-!
 # Timestamp conversions (L8) — model of `/repo/src/rpm/timestamp.rs`
 
@@ -132,5 +133,50 @@ def now (clock : Instant) : Conv :=
   | .underflow => .panic "now-unwrap-underflow"
   | .overflow => .panic "now-unwrap-overflow"
   | .panic s => .panic s
+
+/-! ## chrono values as chrono stores and builds them: leap-second readings, calendar fields, zones (AUDIT2 a23, b22)
+
+`DateTime` above identifies a chrono value with an `Instant` (`nanos < 10⁹`). chrono itself keeps a sub-second field
+`frac < 2·10⁹`: from 10⁹ on the value is a reading INSIDE a leap second, hanging on the second before it
+(23:59:59 + 1.5 s is how 23:59:60.5 is stored). `ChronoDT` is that representation; the conversion below is the same Rust
+code (`dt.with_timezone(&Utc).timestamp()`, sign test, `try_into`) applied to it: `frac` and the offset are carried along
+and never looked at. -/
+
+/-- a `chrono::DateTime<Tz>` as stored: the UTC date-time as whole non-leap seconds since the epoch (`timestamp()`), the
+sub-second field (`timestamp_subsec_nanos()`, up to 2·10⁹ − 1), and the zone's offset in seconds east of UTC -/
+structure ChronoDT where
+  secs : Int
+  frac : Nat
+  offset : Int
+  frac_lt : frac < 2000000000
+
+/-- a reading inside a leap second -/
+def ChronoDT.isLeap (d : ChronoDT) : Bool := decide (1000000000 ≤ d.frac)
+
+/-- `dt.with_timezone(&Utc)`: the same stored date-time, offset replaced by 0 -/
+def ChronoDT.withTimezoneUtc (d : ChronoDT) : ChronoDT := { d with offset := 0 }
+/-- `dt.timestamp()`: the stored whole seconds; a leap reading answers the second it hangs on -/
+def ChronoDT.timestamp (d : ChronoDT) : Int := d.secs
+
+/-- `impl<TZ> TryFrom<chrono::DateTime<TZ>> for Timestamp`, on chrono's own representation -/
+def fromChronoDT (d : ChronoDT) : Conv :=
+  let t := d.withTimezoneUtc.timestamp
+  if t < 0 then .underflow
+  else match u32OfI64 t with
+    | none => .overflow
+    | some n => .ok n
+
+/-- a non-leap value is a `DateTime` of an `Instant` -/
+def ChronoDT.toDateTime (d : ChronoDT) (h : d.frac < 1000000000) : DateTime := ⟨⟨d.secs, d.frac, h⟩, d.offset⟩
+
+/-- order of readings as chrono orders `DateTime`s: by the stored (seconds, sub-second field) — a leap reading lies after
+every ordinary reading of its second and before the next second -/
+def ChronoDT.le (a b : ChronoDT) : Prop := a.secs < b.secs ∨ (a.secs = b.secs ∧ a.frac ≤ b.frac)
+
+/-- `NaiveDate::from_ymd_opt(y, m, d)?.and_hms_nano_opt(h, mi, s, frac)?` read on the wall clock of a zone `offset` seconds
+east of UTC (`and_local_timezone(FixedOffset)`, an RFC 3339 text with that offset, `Utc.with_ymd_and_hms` for offset 0):
+the stored UTC seconds are the wall-clock seconds minus the offset. (`h` is part of `c.valid`.) -/
+def ofCivil (c : Calendar.Civil) (offset : Int) (h : c.frac < 2000000000) : ChronoDT :=
+  ⟨c.localSecs - offset, c.frac, offset, h⟩
 
 end RpmVerif.Timestamp
